@@ -40,6 +40,7 @@ def run(ctx):
         r5_clock_table(ctx, facts, cfg)
         options_read_only(ctx, facts, cfg)
         r7_tsc_slots(ctx, facts, cfg)
+        r9_read_pass_exits(ctx, facts, cfg)
         # after a pass every thread with an eligible statement has one buffered: the helper that reads an unbounded queue hands back the
         # read position also on the pass in which the consumer switches nodes (= C20.R4)
         from rules import c20 as _c20
@@ -471,6 +472,64 @@ def r5_clock_table(ctx, facts, cfg):
     ctx.ob("C05.R5d", "_populate_transit_event_from_frontend_queue:tsc-converted-exactly", ok,
            "the record's timestamp is replaced by RdtscClock::time_since_epoch(timestamp) exactly for loggers whose clock source is Tsc, "
            "on every path before it is compared or buffered (cycle counts and epoch nanoseconds are never mixed in the ordering)", fn=df)
+
+
+def r9_read_pass_exits(ctx, facts, cfg, rule="C05.R9"):
+    """R9: after a pass over the queues every thread with an eligible statement in its queue has one buffered (the single-event branch of
+    the poll loop, and every flush request, rely on it). The per-queue read loop therefore ends for three reasons only: the queue was
+    found empty (the read position is null), the decoder declined the head statement (hold-back), or the per-pass limits — which are
+    tested after at least one statement was buffered. Any other way out of the loop leaves an eligible statement unread while later
+    statements of other threads (a flush request among them) are processed."""
+    fns = facts.need(BW + "_read_and_decode_frontend_queue", cfg, floor=2)
+    for f in fns:
+        g = f.g
+        loops = [n for n in f.walk() if n["k"] in ("DoStmt", "WhileStmt", "ForStmt")]
+        if len(loops) != 1:
+            raise AnalysisBroken("_read_and_decode_frontend_queue: expected one read loop, found %d" % len(loops))
+        lp = loops[0]
+        inits = f.var_inits()
+        decls = f.var_decls()
+        # the read position: the local assigned from prepare_read / _read_unbounded_frontend_queue
+        rp = set()
+        for n in f.walk():
+            if n["k"] == "BinaryOperator" and n["op"] == "=" and var_ref(n["lhs"]) is not None and \
+                    any(is_call(x, r"::(prepare_read|_read_unbounded_frontend_queue)$") for x in walk(n["rhs"])):
+                rp.add(var_ref(n["lhs"]))
+        for v, i in inits.items():
+            if isnode(i) and any(is_call(x, r"::(prepare_read|_read_unbounded_frontend_queue)$") for x in walk(i)):
+                rp.add(v)
+        acc = set(var_ref(n["lhs"]) for n in f.walk() if n["k"] == "CompoundAssignOperator" and n["op"] == "+=" and var_ref(n["lhs"]) is not None)
+        exits = [x for x in walk(lp.get("body")) if x["k"] in ("BreakStmt", "ReturnStmt", "GotoStmt")]
+        bad = []
+        for x in exits:
+            # the conditions that control this exit: the enclosing if statements inside the loop
+            conds = []
+            prev = x
+            for a in f.ancestors(x):
+                if a is lp:
+                    break
+                if a["k"] == "IfStmt":
+                    conds.append(a.get("cond"))
+                prev = a
+            if not conds:
+                bad.append("unconditional %s at %s" % (x["k"], x.get("loc")))
+                continue
+            ok_reason = False
+            for c in conds:
+                leaves = flatten(strip(peel_not(c)), "&&") + flatten(strip(peel_not(c)), "||")
+                txt = [y for y in walk(c)]
+                if nonnull_label(c, rp) is not None:
+                    ok_reason = True          # the queue is empty
+                elif any(is_call(y, r"::_populate_transit_event_from_frontend_queue$") for y in txt):
+                    ok_reason = True          # the decoder declined (hold-back)
+                elif any((y["k"] == "DeclRefExpr" and y.get("did") in acc) or (y["k"] == "MemberExpr" and y.get("mname") == "transit_events_hard_limit") for y in txt):
+                    ok_reason = True          # the per-pass limits (a while(true) form of the do-while condition)
+            if not ok_reason:
+                bad.append("%s at %s under %s" % (x["k"], x.get("loc"), expr_key(conds[0], True)[:80]))
+        site = "_read_and_decode_frontend_queue<%s>" % ("Unbounded" if "Unbounded" in f.name else "Bounded")
+        ctx.ob(rule, site + ":read-loop-exits", not bad,
+               "the per-queue read loop is left only because the queue is empty, the head statement is held back, or the per-pass limits "
+               "were reached after something was buffered (%d exit(s) in the body; other: %s)" % (len(exits), "; ".join(bad) or "none"), fn=f)
 
 
 RC = "quill::detail::RdtscClock::"
